@@ -22,4 +22,12 @@ def c20q (toks : List String) : String :=
     s!"{b01 (a.beq asciiLower b)} {b01 (decide (a.hashKey asciiLower = b.hashKey asciiLower))} {b01 (decide (a.specIdent asciiLower = b.specIdent asciiLower))}"
   | none => "bad-op"
 
+namespace C20
+def dispatch (cmd : String) (rest : List String) : Option String :=
+  match cmd with
+  | "c20r" => some (c20r rest)
+  | "c20q" => some (c20q rest)
+  | _ => none
+end C20
+
 end Zc.Driver
